@@ -1,6 +1,7 @@
 package main
 
 import (
+	"go/types"
 	"fmt"
 	"os"
 	"sort"
@@ -54,6 +55,25 @@ func allFunctions(prog *ssa.Program, spkgs []*ssa.Package) []*ssa.Function {
 			walk(f)
 		}
 	}
+	// declared methods of every named type of the packages in scope (generic types included: their origins are not
+	// always among the reachable functions)
+	for sp := range inScope {
+		for _, mem := range sp.Members {
+			tm, ok := mem.(*ssa.Type)
+			if !ok {
+				continue
+			}
+			named, ok := tm.Type().(*types.Named)
+			if !ok {
+				continue
+			}
+			for i := 0; i < named.NumMethods(); i++ {
+				if f := prog.FuncValue(named.Method(i)); f != nil && f.Blocks != nil {
+					walk(f)
+				}
+			}
+		}
+	}
 	sort.Slice(out, func(i, j int) bool {
 		if out[i].Pos() != out[j].Pos() {
 			return out[i].Pos() < out[j].Pos()
@@ -79,6 +99,18 @@ func main() {
 	switch os.Args[1] {
 	case "check":
 		os.Exit(cmdCheck(os.Args[2:]))
+	case "funcs":
+		// govc funcs <moduledir> <substr> pkgs... : list the names functions are known by (for writing contracts)
+		m, err := loadModule("x", os.Args[2], os.Args[4:], "")
+		if err != nil {
+			fmt.Fprintln(os.Stderr, err)
+			os.Exit(2)
+		}
+		for n := range m.Funcs {
+			if strings.Contains(n, os.Args[3]) {
+				fmt.Println(n)
+			}
+		}
 	case "sweep":
 		os.Exit(cmdSweep(os.Args[2:]))
 	case "replay":
